@@ -3,7 +3,8 @@
    Models: Model/Ads.v (handleServiceAdvertisement, step-exact correspondence by `./check C18`;
    [handle_ad] = the tree after the tombstone "fix:" commit, [handle_ad_pinned] = the pinned tree)
    and Model/AdsWorld.v (a mesh of such nodes, any delivery order, no loss). *)
-From Receptor Require Import Model.Ads Model.AdsWorld Proofs.Ads Proofs.AdsWorld.
+From Coq Require Import Permutation.
+From Receptor Require Import Model.Ads Model.AdsWorld Model.AdsConc Proofs.Ads Proofs.AdsWorld Proofs.AdsConc.
 Open Scope N_scope.
 
 (* 1. An advertisement or withdrawal that is not newer than the stored advertisement changes
@@ -103,3 +104,35 @@ Theorem C18_no_expiry_partial : forall h st n s,
   listed (run_ads handle_ad st h) n s = listed st n s.
 Proof. exact listed_changes_only_by_own_messages. Qed.
 Print Assumptions C18_no_expiry_partial.
+
+(* 8. CONCURRENT DELIVERY.  Sessions deliver from their own goroutines, so several messages about one
+      service can be inside the handler at once.  The handler is one critical section: deciding and
+      applying on the same tables ([handle_ad] = [handle_split st st]), hence a concurrent batch acts like
+      some sequential order, to which theorems 1-5 apply.  The harness checks exactly that on the real
+      node: [conc_ads_check] holds iff the observed table and relays are what the model yields for SOME
+      permutation of the batch.  With the decision and the effect in separate critical sections an older
+      advertisement replaces a newer one and is relayed. *)
+Theorem C18_handler_decides_and_applies_atomically : forall st a recv,
+  handle_ad st a recv = handle_split st st a recv.
+Proof. exact handle_ad_is_decide_apply. Qed.
+Print Assumptions C18_handler_decides_and_applies_atomically.
+
+Theorem C18_linearizability_check_exact : forall c,
+  conc_ads_check c = true <-> exists p, Permutation (ca_batch c) p /\ explains c p = true.
+Proof. exact conc_ads_check_exact. Qed.
+Print Assumptions C18_linearizability_check_exact.
+
+Theorem C18_split_handler_refuted :
+  let st0 := ads_init [2; 3] in
+  let '(st1, r1) := handle_split st0 st0 ex_new 2 in
+  let '(st2, r2) := handle_split st0 st1 ex_old 3 in
+  listed st1 5 1 = Some (9, 2) /\ listed st2 5 1 = Some (4, 1) /\ r2 <> [].
+Proof. exact split_handler_older_replaces_newer. Qed.
+Print Assumptions C18_split_handler_refuted.
+
+Example C18_atomic_handler_keeps_newer :
+  let st0 := ads_init [2; 3] in
+  let '(st1, r1) := handle_ad st0 ex_new 2 in
+  let '(st2, r2) := handle_ad st1 ex_old 3 in
+  listed st2 5 1 = Some (9, 2) /\ r2 = [].
+Proof. exact atomic_handler_keeps_newer. Qed.
